@@ -325,11 +325,11 @@ func alphabetic(symbols []pr.NamedString, value int) (string, bool) {
 
 // Implement the algorithm for `type: numeric`.
 func numeric(symbols []pr.NamedString, value int) (string, bool) {
-	if value == 0 {
-		return symbol(symbols[0]), true
-	}
 	if len(symbols) < 2 {
 		return "", false
+	}
+	if value == 0 {
+		return symbol(symbols[0]), true
 	}
 	var reversedParts []string
 	value = utils.Abs(value)
